@@ -193,6 +193,9 @@ def run(ck):
     v = H.build_exec_harness('c04-ts-asan')
     procs = plan(ck.tier)
     jobs = [(v['h_exec'], pr, os.path.join(ck.workdir, 'p%02d' % i)) for i, pr in enumerate(procs)]
+    # the same plan on the non-thread-safe build (--disable-thread-safety)
+    vn = H.build_exec_harness('c04-nots-asan', ts=False)
+    jobs += [(vn['h_exec'], dict(pr, name='nots:' + pr['name']), os.path.join(ck.workdir, 'n%02d' % i)) for i, pr in enumerate(procs)]
     res = pmap(run_proc, jobs)
     evals = 0
     outcomes = set()
